@@ -42,7 +42,9 @@ func coqZ(v int) string { return fmt.Sprintf("(%d)%%Z", v) }
 
 // ---------- the specification, written independently of the library ----------
 
-func hex2(k int) string { return string([]byte{"0123456789abcdef"[(k>>4)&15], "0123456789abcdef"[k&15]}) }
+func hex2(k int) string {
+	return string([]byte{"0123456789abcdef"[(k>>4)&15], "0123456789abcdef"[k&15]})
+}
 
 func sha256d(b []byte) []byte {
 	a := sha256.Sum256(b)
@@ -74,7 +76,9 @@ type valueIn struct {
 	DataHex string `json:"data_hex"`
 }
 
-func in(p string, v, n int, d []byte) valueIn { return valueIn{fmt.Sprintf("%q", p), v, n, hex.EncodeToString(d)} }
+func in(p string, v, n int, d []byte) valueIn {
+	return valueIn{fmt.Sprintf("%q", p), v, n, hex.EncodeToString(d)}
+}
 
 func encode(p string, v, n int, d []byte) (out string, panicked bool) {
 	pan, msg := common.Safely(func() { out = bscript.EncodeBIP276(bscript.BIP276{Prefix: p, Version: v, Network: n, Data: d}) })
@@ -201,6 +205,14 @@ func checkCorrupt(text, orig string) decoded {
 	}
 	checkValidate(text, r.ok)
 	return r
+}
+
+// wellFormed: exactly the layout (prefix ':' hex digits in pairs, at least twelve) with the checksum of the preceding text.
+func wellFormed(t string) bool {
+	i := strings.LastIndex(t, ":")
+	return i >= 1 && len(t)-i-1 >= 12 && (len(t)-i-1)%2 == 0 && !strings.Contains(t[:i], "\n") &&
+		strings.Trim(t[i+1:], "0123456789abcdefABCDEF") == "" &&
+		t[len(t)-8:] == hex.EncodeToString(sha256d([]byte(t[:len(t)-8]))[:4])
 }
 
 // ---------- Coq cases ----------
@@ -451,14 +463,37 @@ func main() {
 		ck := v[len(v)-8:]
 		adv = append(adv, v+ck, v+"ab"+ck, v+ck+ck, v[:len(v)-8]+ck[:6]+ck, withSum(v), withSum(v+ck))
 	}
+	// every single-byte substitution in the hex part of the ten encodings, each with the checksum recomputed over the text as
+	// written: a character that is not a hex digit must be refused whatever the checksum says (Go side: all 255 values at every
+	// position; model side: one non-hex value per position, chosen among the characters next to the digit ranges)
+	resum := 0
+	for _, v := range valid {
+		i0 := strings.LastIndex(v, ":") + 1
+		body := v[:len(v)-8]
+		for i := i0; i < len(body); i++ {
+			near := []byte{'G', 'Z', '[', '`', 'g', '/', ':', '@', '_', 'O'}[(i+resum)%10]
+			for b := 0; b < 256; b++ {
+				if byte(b) == body[i] {
+					continue
+				}
+				t := withSum(body[:i] + string([]byte{byte(b)}) + body[i+1:])
+				rr := decode(t)
+				resum++
+				if rr.ok && !wellFormed(t) { // (a ':' moves the end of the prefix: judged by the layout, like the hand-made texts below)
+					violate("DecodeBIP276/accepts-non-hex-digit", fmt.Sprintf("decoded as version/network %d/%d data %x", rr.v, rr.n, rr.d), fmt.Sprintf("%q", t))
+				}
+				checkValidate(t, rr.ok)
+				if byte(b) == near {
+					decCase("resummed", t, rr)
+				}
+			}
+		}
+	}
+	c.Stats.Extra["go_level_resummed_substitutions"] = resum
 	for _, t := range adv {
 		rr := decode(t)
 		if rr.ok { // accepted => exactly the layout with the checksum of the preceding text
-			i := strings.LastIndex(t, ":")
-			good := i >= 1 && len(t)-i-1 >= 12 && (len(t)-i-1)%2 == 0 && !strings.Contains(t[:i], "\n") &&
-				strings.Trim(t[i+1:], "0123456789abcdefABCDEF") == "" &&
-				t[len(t)-8:] == hex.EncodeToString(sha256d([]byte(t[:len(t)-8]))[:4])
-			if !good {
+			if !wellFormed(t) {
 				violate("DecodeBIP276/accepts-malformed-text", "", fmt.Sprintf("%q", t))
 			}
 		}
@@ -467,6 +502,6 @@ func main() {
 		valCase("adversarial", t)
 	}
 
-	c.Stats.Rule = "Go side: all 65 025 (version, network) pairs (quick: prefix script/template and payload length {0,1,11,300} rotate with the pair; thorough: every pair x 2 prefixes x 4 lengths) with round-trip, layout and validate predicates; every payload length 0..700 x 2 prefixes; every single-byte substitution (all 255 other values), deletion and insertion at every position of ten valid encodings, every truncation of one. Model side (cases counted here): 16x16 boundary field values + 1300 seeded random pairs (thorough: all pairs x 2 prefixes), payload lengths {0,1,11,300} x 2 prefixes and 59 further lengths (0..24, around 32/48/56/64/118/128/237/256/512), out-of-range fields {0,256,-1,257,-255,-256,2^31,-2^40,1000}, 18 unusual prefixes (colons, non-UTF-8, newline, empty), two substitutions + indels per position of the ten encodings, truncations, 40 hand-made adversarial texts (several colons, letter case, zero fields, odd data length). distinct = distinct (prefix,version,network,data) for encoder cases / distinct text for decoder and validate cases; non-trivial = encoder output is not ERROR / text has a colon and at least 14 characters"
+	c.Stats.Rule = "Go side: all 65 025 (version, network) pairs (quick: prefix script/template and payload length {0,1,11,300} rotate with the pair; thorough: every pair x 2 prefixes x 4 lengths) with round-trip, layout and validate predicates; every payload length 0..700 x 2 prefixes; every single-byte substitution (all 255 other values), deletion and insertion at every position of ten valid encodings, every truncation of one; every single-byte substitution in the hex part of the ten encodings with the checksum recomputed over the text as written. Model side (cases counted here): 16x16 boundary field values + 1300 seeded random pairs (thorough: all pairs x 2 prefixes), payload lengths {0,1,11,300} x 2 prefixes and 59 further lengths (0..24, around 32/48/56/64/118/128/237/256/512), out-of-range fields {0,256,-1,257,-255,-256,2^31,-2^40,1000}, 18 unusual prefixes (colons, non-UTF-8, newline, empty), two substitutions + indels per position of the ten encodings, truncations, 40 hand-made adversarial texts (several colons, letter case, zero fields, odd data length). distinct = distinct (prefix,version,network,data) for encoder cases / distinct text for decoder and validate cases; non-trivial = encoder output is not ERROR / text has a colon and at least 14 characters"
 	c.Finish()
 }
